@@ -14,7 +14,7 @@ import json
 import os
 
 from . import common, explore, srv, srv_alpha, srv_check, tlc
-from . import cli, cli_alpha, simple, threads, adisc
+from . import cli, cli_alpha, simple, threads, adisc, pubsub
 from .tla_lit import lit
 
 BASE_INV = ['TypeOK']
@@ -117,6 +117,13 @@ PLAN.update({
                   'sc_emit_final'],
         'thorough': list(simple.CONFIGS),
     },
+    'C07': {
+        'fam': 'pubsub',
+        'inv': ['C07_Deliveries', 'C07_SingleServerEquivalence',
+                'C07_OwnerHoldsClient', 'C07_CallbackOnOrigin'],
+        'quick': ['ps_imm_quick', 'ps_delay_quick', 'ps_cb_quick'],
+        'thorough': ['ps_imm_quick', 'ps_delay_quick', 'ps_cb_quick'],
+    },
     'C09': {
         'fam': 'client',
         'inv': ['C09_EventDispatch', 'C09_IssuedIdUnique', 'C09_AckOutcome',
@@ -168,7 +175,21 @@ def _threads_consts(cfg):
             'YieldAt': set(cfg.get('yield_at', threads.ALL_LABELS))}
 
 
+def _pubsub_consts(cfg):
+    c = srv_check.consts(cfg)
+    c.update({'Hosts': set(cfg['hosts']), 'HostOf': dict(cfg['host_of']),
+              'WriteOnly': bool(cfg.get('write_only')),
+              'MaxChan': cfg['max_chan'],
+              'Immediate': bool(cfg.get('immediate')),
+              'NsAll': set(cfg['ns_all'])})
+    return c
+
+
 FAMILIES = {
+    'pubsub': dict(spec='PubSub', graph='PubSubGraph',
+                   configs=pubsub.CONFIGS, alpha=pubsub,
+                   consts=_pubsub_consts,
+                   adapter=lambda c: pubsub.PubSubAdapter(c)),
     'threads': dict(spec='SrvDisconnectThreads',
                     graph='SrvDisconnectThreadsGraph',
                     configs={k: dict(v, alpha='sched')
